@@ -135,6 +135,7 @@ class StoreDomain(ExactCollections, ReplyDomain):
                     oks, excs = Interp(self, self.fn.node, self.prog).ev(expr, Env(), Ctx(self.fn.node))
                     if len(oks) == 1 and not excs and _hashable_val(oks[0][0]):
                         return oks[0][0]
+                self.lost_constants = getattr(self, "lost_constants", set()) | {name}
                 return TOP
         return ReplyDomain.name_load(self, name, state, node)
 
@@ -269,6 +270,14 @@ def script_eval(prog, mname, replies, nkeys=2, noreply=False, ignore_exc=False, 
     if noreply_arg != "unset" and f.param("noreply") is not None:
         env["noreply"] = Const(noreply_arg)  # the value the caller passes for `noreply` (None = not given)
     outs = Interp(dom, f.node, prog).run(Env(env))
+    if getattr(dom, "lost_constants", None):
+        # a module-level table the analysis could not compute was consulted: nothing this evaluation says is exact
+        from .paths import Outs
+
+        o2 = Outs()
+        for (k_, s_, v_), t_ in outs.d.items():
+            o2.add(k_, s_.set("#imprecise", 1), v_, t_)
+        outs = o2
     if dom.thresholds:
         # a size of the scenario (zero to two keys) was compared with / divided by a constant far above it: what the
         # method does beyond that size is not explored by any of these scripts (see size_thresholds)
